@@ -61,6 +61,7 @@ type dRun struct {
 	nProd      int
 	nWrites    int
 	viaLogger  bool
+	closeAsked bool
 	scenario   int
 	reentrant  bool
 	sinkKind   int
@@ -172,6 +173,11 @@ func (t *dTap) Close() error {
 	r := t.r
 	if zsim.Dying() {
 		return nil
+	}
+	if !r.closeAsked {
+		// only Fatal is documented to close the writer; a logger that closes it on its own
+		// leaves everything the application writes afterwards undelivered and unreported
+		zsim.Fail(r.prop+".closed_unasked", "the diode writer was closed although the application neither called Close nor logged a fatal event (a recovered Panic() event was the last thing logged): later messages are lost without a report")
 	}
 	r.closeInv = r.t()
 	if r.firstCloseInv == 0 {
@@ -405,7 +411,22 @@ func (r *dRun) producer(p int, lg zerolog.Logger, fatal bool) func() {
 				r.pending[zsim.CurID()] = m
 				// every level a logger can carry (WithLevel neither exits nor panics)
 				lv := []zerolog.Level{zerolog.NoLevel, zerolog.InfoLevel, zerolog.ErrorLevel, zerolog.PanicLevel, zerolog.FatalLevel, zerolog.DebugLevel}[(p+k)%6]
-				lg.WithLevel(lv).Str("m", m.id).Str("pad", strings.Repeat("x", pad)).Msg("")
+				if lv == zerolog.PanicLevel && r.ch.Chance(1, 2) {
+					// a real Panic(): the event is written, then the call panics and the application
+					// recovers and carries on logging
+					zsim.Probe("recovered_panic_event")
+					func() {
+						defer func() {
+							// (a filtered Panic() still panics, with an empty message)
+							if v := recover(); v != nil && v != "recovered by the application" && v != "" {
+								panic(v)
+							}
+						}()
+						lg.Panic().Str("m", m.id).Str("pad", strings.Repeat("x", pad)).Msg("recovered by the application")
+					}()
+				} else {
+					lg.WithLevel(lv).Str("m", m.id).Str("pad", strings.Repeat("x", pad)).Msg("")
+				}
 			} else {
 				r.directWrite(m, pad)
 			}
@@ -452,6 +473,7 @@ func (r *dRun) producer(p int, lg zerolog.Logger, fatal bool) func() {
 				zsim.Probe("fatal_with_failing_sibling_close")
 				flg = zerolog.New(zerolog.MultiLevelWriter(r.tap, dFailCloser{}))
 			}
+			r.closeAsked = true
 			flg.Fatal().Str("m", m.id).Msg("fatal")
 			zsim.Fail("harness", "Fatal().Msg returned")
 		}
@@ -672,6 +694,7 @@ func (diodeWorld) Run(prop string, ch *zsim.Choices, trace bool) *RunResult {
 			for i := ch.Intn(20); i > 0; i-- {
 				zsim.Yield("closer delay")
 			}
+			r.closeAsked = true
 			r.tap.Close()
 			zsim.Join(r.prodTasks...)
 			finishNeighbour()
@@ -720,6 +743,7 @@ func (diodeWorld) Run(prop string, ch *zsim.Choices, trace bool) *RunResult {
 				}
 			})
 		}
+		r.closeAsked = true
 		r.tap.Close()
 		if closer2 != nil {
 			zsim.Join(closer2)
